@@ -2,6 +2,7 @@
 //! `check <property> [--tier quick|thorough] [--replay <file>]`
 mod c04;
 mod c06;
+mod c07;
 mod c10;
 mod c11;
 mod c13;
@@ -26,6 +27,7 @@ fn lookup(id: &str) -> Option<(RunFn, CheckFn)> {
     Some(match id {
         "C04" => (c04::run, c04::check_record),
         "C06" => (c06::run, c06::check_record),
+        "C07" => (c07::run, c07::check_record),
         "C10" => (c10::run, c10::check_record),
         "C11" => (c11::run, c11::check_record),
         "C13" => (c13::run, c13::check_record),
@@ -102,6 +104,11 @@ fn main() {
                 println!("{}", ex);
             }
         }
+        return;
+    }
+    if id == "--worker-c07" {
+        install_panic_hook();
+        c07::worker(&args[1]);
         return;
     }
     if id == "dump" {
